@@ -1,18 +1,28 @@
-(* C10 — fields are linear in sources and initial state.  Model: model/Yee.v; lemmas: proofs/Yee_linear.v *)
+(* C10 — fields are linear in sources and initial state.  Model: model/Yee.v; lemmas: proofs/Yee_linear.v, proofs/Yee_linear_pml.v *)
 From Coq Require Import List Arith.
-From FV Require Import base.Scalar base.Cplx model.Yee proofs.Yee_steps proofs.Yee_linear.
+From FV Require Import base.Scalar base.Cplx model.Yee proofs.Yee_steps proofs.Yee_pml_loop proofs.Yee_linear proofs.Yee_linear_pml.
 Import ListNotations.
 
-(* PARTIAL in scope: proved for every PML-free scene (any grid, ghost factors, widths, masks, iso/diag lossy materials);
-   scenes with absorbing layers are covered by the correspondence and the implementation predicate only.
-   with_inj sc jE jH = the same scene with other source injections; lcV a b x y = a*x + b*y cell by cell. *)
-Theorem C10_forward_linear_partial : forall (K : Fld) (sc : scene K) (a b : car K), pmls K sc = [] ->
-  forall jE1 jH1 jE2 jH2 n s1 s2 s3,
+(* For every scene of the model — any grid, ghost factors (periodic / Bloch / zero halo), widths, wall masks, iso/diagonal lossy
+   materials and ANY list of CPML absorbing layers — and any number of steps: if the initial E, H and psi accumulators of a third
+   run are a*x1 + b*x2 of those of two runs, and its source injections are a*j1 + b*j2 (with_inj replaces the injections of the
+   scene; an amplitude factor scales a source's injection), then so are its E and H after n steps, cell by cell.
+   lin_psis relates the psi lists layer by layer (all three lists as long as the layer list). *)
+Theorem C10_forward_linear : forall (K : Fld) (sc : scene K) (a b : car K) jE1 jH1 jE2 jH2 n s1 s2 s3,
   tstep s2 = tstep s1 -> tstep s3 = tstep s1 ->
-  veqA K (fE s3) (lcV K a b (fE s1) (fE s2)) -> veqA K (fH s3) (lcV K a b (fH s1) (fH s2)) ->
+  eqV K (fE s3) (lcVl K a b (fE s1) (fE s2)) -> eqV K (fH s3) (lcVl K a b (fH s1) (fH s2)) ->
+  lin_psis K sc a b (psiE s1) (psiE s2) (psiE s3) -> lin_psis K sc a b (psiH s1) (psiH s2) (psiH s3) ->
   let sc1 := with_inj K sc jE1 jH1 in let sc2 := with_inj K sc jE2 jH2 in
-  let sc3 := with_inj K sc (fun t => lcV K a b (jE1 t) (jE2 t)) (fun t => lcV K a b (jH1 t) (jH2 t)) in
-  veqA K (fE (iterS K sc3 n s3)) (lcV K a b (fE (iterS K sc1 n s1)) (fE (iterS K sc2 n s2))) /\
-  veqA K (fH (iterS K sc3 n s3)) (lcV K a b (fH (iterS K sc1 n s1)) (fH (iterS K sc2 n s2))).
-Proof. intros K sc a b Hp jE1 jH1 jE2 jH2 n. exact (forward_linear_n K sc a b Hp jE1 jH1 jE2 jH2 n). Qed.
-Print Assumptions C10_forward_linear_partial.
+  let sc3 := with_inj K sc (fun t => lcVl K a b (jE1 t) (jE2 t)) (fun t => lcVl K a b (jH1 t) (jH2 t)) in
+  eqV K (fE (iterS K sc3 n s3)) (lcVl K a b (fE (iterS K sc1 n s1)) (fE (iterS K sc2 n s2))) /\
+  eqV K (fH (iterS K sc3 n s3)) (lcVl K a b (fH (iterS K sc1 n s1)) (fH (iterS K sc2 n s2))).
+Proof. intros K sc a b jE1 jH1 jE2 jH2 n. exact (forward_linear_pml_n K sc a b jE1 jH1 jE2 jH2 n). Qed.
+Print Assumptions C10_forward_linear.
+
+(* the CPML loop itself is linear in (derivatives, accumulators, curl) *)
+Theorem C10_cpml_step_linear : forall (K : Fld) (a b ca cb ik : car K) k1 sim d1 d2 p1 p2,
+  cpml_step K ca cb ik k1 sim (lc2 K a b d1 d2) (lc2 K a b p1 p2) =
+  (lc2 K a b (fst (cpml_step K ca cb ik k1 sim d1 p1)) (fst (cpml_step K ca cb ik k1 sim d2 p2)),
+   lc2 K a b (snd (cpml_step K ca cb ik k1 sim d1 p1)) (snd (cpml_step K ca cb ik k1 sim d2 p2))).
+Proof. exact cpml_step_lin. Qed.
+Print Assumptions C10_cpml_step_linear.
